@@ -183,7 +183,14 @@ impl TableBootstrapInner {
             let mut receivers = FuturesUnordered::new();
             let (new_receivers_tx, mut new_receivers_rx) = mpsc::unbounded_channel();
 
-            let contact_count = router_addresses.len() + self.starting_nodes.len();
+            // A contact may be given both as a router and as a starting node: contact it once
+            // (all initial requests share one transaction id, which must be unique per address).
+            let initial_contacts: HashSet<SocketAddr> = router_addresses
+                .union(&self.starting_nodes)
+                .copied()
+                .collect();
+
+            let contact_count = initial_contacts.len();
             let stop_at = std::cmp::min(contact_count, MAX_INITIAL_RESPONSES);
             let mut responses_received = 0;
 
@@ -191,7 +198,7 @@ impl TableBootstrapInner {
             let mut new_receivers_closed = false;
             let mut send_to_initial_nodes = pin!(self.send_to_initial_nodes(
                 find_node_msg,
-                &router_addresses,
+                &initial_contacts,
                 new_receivers_tx
             ));
 
@@ -320,13 +327,13 @@ impl TableBootstrapInner {
     async fn send_to_initial_nodes(
         &self,
         message: Message,
-        router_addresses: &HashSet<SocketAddr>,
+        initial_contacts: &HashSet<SocketAddr>,
         new_receivers_tx: mpsc::UnboundedSender<Responded>,
     ) {
         let mut last_send_error = None;
         let mut count = 0;
 
-        for addr in router_addresses.iter().chain(self.starting_nodes.iter()) {
+        for addr in initial_contacts.iter() {
             // Throttle sending if there is too many initial contacts
             if count > PINGS_PER_BUCKET {
                 time::sleep(NODE_TIMEOUT.max(Self::nat_friendly_send_duration())).await;
